@@ -192,7 +192,16 @@ def run_real(sc, workdir):
             if role == "main" and main_first:
                 S.main_requested = not all_w_done
                 out["stop_step"] = S.steps
+            n_before = len(S.trace)
             S.turn(role, g)
+            # the worker's own detections list as it stands after this turn: attached to the turn's events for the monitor,
+            # and the statement's "ids ... match the worker's own detections list" is evaluated at this very moment
+            own = [d.id for d in tok.detections]
+            for e in S.trace[n_before:]:
+                e.append(len(own))
+                if e[0] == 6 and e[2] > 0 and e[2] not in own and "transient" not in out:
+                    out["transient"] = ("observer %d processed detection %d while the worker's own detections list holds only ids %r "
+                                        "(after scheduling step %d)" % (e[1], e[2], own, S.steps))
     except L.Stuck as e:
         out["stuck"] = str(e)
     except BaseException:   # noqa
@@ -285,6 +294,8 @@ def check_statement(sc, ob):
         key = "C14" if sc["kind"] == "stop" and ob.get("stop_step") is not None else "C12"
         v[key] = "threads do not terminate: " + ob["stuck"]
         return v
+    if ob.get("transient"):
+        v["C12"] = ob["transient"]
     if ob.get("crashes"):
         v["C12"] = "a worker thread died with an exception: " + ob["crashes"][0][-300:]
         if sc["kind"] == "stop":
@@ -367,6 +378,9 @@ def model_case(sc, ob, mparams):
     if sc["partial"] and nb:
         bszs[-1] = sc["partial"] * SW * CH
     ev = [e for e in ob["events"]]
+    for e in ev:
+        if len(e) < 2 or not isinstance(e[-1], int):
+            e.append(-1)
     return (80, [mn, mx, ms, 0, 0, mode, sc["pattern"], bszs, len(sc["observers"]), 1 if sc["saver"] else 0,
                  int(math.ceil(sc["cache_bytes"])), ev])
 
@@ -437,7 +451,7 @@ def _job(args):
 
 
 def slim(ob):
-    out = {k: ob.get(k) for k in ("stuck", "error", "anomalies", "crashes", "steps", "nreads", "printed", "alive", "stop_step", "threads_alive")}
+    out = {k: ob.get(k) for k in ("stuck", "error", "anomalies", "crashes", "steps", "nreads", "printed", "alive", "stop_step", "threads_alive", "transient")}
     out["trace"] = ob.get("log", [])[:400]
     out["events"] = ob.get("events", [])[:400]
     out["detections"] = ob.get("detections")
